@@ -589,8 +589,8 @@ struct GMod {
     #[allow(dead_code)]
     tag: String,
     name: String,
-    /// generic parameter (binding, bound module index)
-    generic: Option<(String, usize)>,
+    /// generic parameters (binding, bound module index)
+    generic: Vec<(String, usize)>,
     inherit: Option<usize>,
     /// effective gates (own + inherited): (ident, cluster size or 0 for an atom)
     gates: Vec<(String, usize)>,
@@ -599,8 +599,12 @@ struct GMod {
     lines: Vec<String>,
     /// gate instances already wired by this module type (own + inherited connections)
     used: Vec<String>,
+    /// number of module instances one instance of this type expands to (estimate, keeps builds small)
+    count: usize,
 }
 
+/// upper bound (estimate) on the module instances of one generated simulation
+const MAX_INSTANCES: usize = 250;
 const GATE_NAMES: [&str; 6] = ["in", "out", "port", "p", "q", "up"];
 const SUB_NAMES: [&str; 7] = ["a", "b", "c", "n", "s", "host", "sw"];
 const MOD_NAMES: [&str; 12] = ["A", "B", "C", "D", "E", "F", "G", "H", "I", "J", "K", "L"];
@@ -689,16 +693,20 @@ fn gen_valid(r: &mut Rng, thorough: bool) -> (Vec<GMod>, Vec<String>, String) {
     for i in 0..k {
         let tag = format!("m{i}");
         let name = names[i].to_string();
-        let mut m = GMod { tag: tag.clone(), name: name.clone(), generic: None, inherit: None, gates: vec![], subs: vec![], lines: vec![], used: vec![] };
-        let plain: Vec<usize> = (0..i).filter(|&j| mods[j].generic.is_none()).collect();
+        let mut m = GMod { tag: tag.clone(), name: name.clone(), generic: vec![], inherit: None, gates: vec![], subs: vec![], lines: vec![], used: vec![], count: 1 };
+        let plain: Vec<usize> = (0..i).filter(|&j| mods[j].generic.is_empty()).collect();
         // generics
-        if !plain.is_empty() && r.chance(1, 4) {
-            let b = *r.pick(&plain);
-            m.generic = Some(("T".to_string(), b));
+        if !plain.is_empty() && r.chance(1, 3) {
+            m.generic.push(("T".to_string(), *r.pick(&plain)));
+            if r.chance(1, 3) {
+                m.generic.push(("U".to_string(), *r.pick(&plain)));
+            }
         }
-        let key = match &m.generic {
-            Some((bind, b)) => format!("{name}({bind} <- {})", mods[*b].name),
-            None => name.clone(),
+        let key = if m.generic.is_empty() {
+            name.clone()
+        } else {
+            let ps: Vec<String> = m.generic.iter().map(|(bind, b)| format!("{bind} <- {}", mods[*b].name)).collect();
+            format!("{name}({})", ps.join(", "))
         };
         m.lines.push(format!("mod {tag} {}", esc(&key)));
         // inheritance
@@ -708,6 +716,7 @@ fn gen_valid(r: &mut Rng, thorough: bool) -> (Vec<GMod>, Vec<String>, String) {
             m.gates = mods[p].gates.clone();
             m.subs = mods[p].subs.clone();
             m.used = mods[p].used.clone();
+            m.count = mods[p].count;
             m.lines.push(format!("inherit {tag} {}", mods[p].name));
         }
         // gates
@@ -722,11 +731,20 @@ fn gen_valid(r: &mut Rng, thorough: bool) -> (Vec<GMod>, Vec<String>, String) {
         }
         // submodules
         let mut sc = 0;
-        if let Some((bind, b)) = m.generic.clone() {
-            let size = if r.chance(1, 2) { 0 } else { r.range(1, 3) as usize };
-            m.subs.push(("t".to_string(), size, b));
-            m.lines.push(format!("sub {tag} s{i}_{sc} {} {bind}", field("t", size)));
-            sc += 1;
+        // every type parameter is used by one to three submodules (atoms and clusters, incl. size 1)
+        for (pi, (bind, b)) in m.generic.clone().into_iter().enumerate() {
+            let uses = [1, 1, 2, 2, 3][r.below(5) as usize];
+            for u in 0..uses {
+                let nm = [["t", "left", "right"], ["u", "x", "y"]][pi][u];
+                let size = if r.chance(1, 2) { 0 } else { r.range(1, 3) as usize };
+                if m.count + size.max(1) * mods[b].count > MAX_INSTANCES && u > 0 {
+                    continue;
+                }
+                m.count += size.max(1) * mods[b].count;
+                m.subs.push((nm.to_string(), size, b));
+                m.lines.push(format!("sub {tag} s{i}_{sc} {} {bind}", field(nm, size)));
+                sc += 1;
+            }
         }
         if i > 0 {
             for _ in 0..r.below(4) {
@@ -736,17 +754,30 @@ fn gen_valid(r: &mut Rng, thorough: bool) -> (Vec<GMod>, Vec<String>, String) {
                 }
                 let size = if r.chance(1, 2) { 0 } else { r.range(1, 3) as usize };
                 let ty = r.below(i as u64) as usize;
-                let tys = match &mods[ty].generic {
-                    None => mods[ty].name.clone(),
-                    Some((_, bound)) => {
-                        // a conforming argument: the bound itself or a module inheriting it
-                        let cands: Vec<usize> = (0..i)
-                            .filter(|&j| mods[j].generic.is_none() && (j == *bound || mods[j].inherit == Some(*bound)))
-                            .collect();
-                        let c = if cands.is_empty() || r.chance(1, 10) { r.below(i as u64) as usize } else { *r.pick(&cands) };
-                        format!("{}({})", mods[ty].name, mods[c].name)
+                let mut est = mods[ty].count;
+                let tys = if mods[ty].generic.is_empty() {
+                    mods[ty].name.clone()
+                } else {
+                    let mut args = Vec::new();
+                    for (_, bound) in &mods[ty].generic {
+                        // a conforming argument: a module inheriting the bound, or the bound itself
+                        let inh: Vec<usize> = (0..i).filter(|&j| mods[j].generic.is_empty() && mods[j].inherit == Some(*bound)).collect();
+                        let c = if r.chance(1, 12) {
+                            r.below(i as u64) as usize
+                        } else if !inh.is_empty() && r.chance(3, 4) {
+                            *r.pick(&inh)
+                        } else {
+                            *bound
+                        };
+                        est += 6 * mods[c].count;
+                        args.push(mods[c].name.clone());
                     }
+                    format!("{}({})", mods[ty].name, args.join(", "))
                 };
+                if m.count + size.max(1) * est > MAX_INSTANCES {
+                    continue;
+                }
+                m.count += size.max(1) * est;
                 m.subs.push((s.to_string(), size, ty));
                 m.lines.push(format!("sub {tag} s{i}_{sc} {} {}", field(s, size), esc(&tys)));
                 sc += 1;
